@@ -372,3 +372,305 @@ Proof.
     cbn [f_add_all]. destruct (f_add U f l) as [f' b]. cbn [fst].
     apply load_rest_legacy. assumption.
 Qed.
+
+(* ---------- torn files (C12) ---------- *)
+
+Lemma firstn_entries_bytes es : forall m,
+  exists j partial,
+    firstn m (entries_bytes es) = entries_bytes (firstn j es) ++ partial
+    /\ (partial = [] \/ exists e r, nth_error es j = Some e /\ encode (esc e) = partial ++ r).
+Proof.
+  induction es as [|e es IH]; intros m.
+  - exists 0%nat, []. rewrite firstn_nil. split; [reflexivity|left; reflexivity].
+  - unfold entries_bytes in *. cbn [flat_map].
+    destruct (Nat.le_gt_cases (length (entry_bytes e)) m) as [Hle|Hgt].
+    + destruct (IH (m - length (entry_bytes e))%nat) as [j [p [H1 H2]]].
+      exists (S j), p. cbn [firstn flat_map nth_error]. rewrite firstn_app, H1.
+      rewrite firstn_all2 by assumption. rewrite <- app_assoc. split; [reflexivity|exact H2].
+    + exists 0%nat, (firstn m (encode (esc e))). cbn [firstn flat_map app nth_error].
+      unfold entry_bytes in *. rewrite app_length in Hgt. cbn [length] in Hgt.
+      rewrite firstn_app. replace (m - length (encode (esc e) ++ [10%N]))%nat with 0%nat
+        by (rewrite app_length; cbn [length]; lia).
+      cbn [firstn]. rewrite app_nil_r. rewrite firstn_app.
+      replace (m - length (encode (esc e)))%nat with 0%nat by lia. cbn [firstn]. rewrite app_nil_r.
+      split; [reflexivity|]. right. exists e, (skipn m (encode (esc e))).
+      split; [reflexivity|]. symmetry. apply firstn_skipn.
+Qed.
+
+Lemma split_lines_aux_nolf p : forall cur,
+  ~ In 10 p ->
+  split_lines_aux p cur = match rev cur ++ p with [] => [] | l => [(l, false)] end.
+Proof.
+  induction p as [|b p IH]; intros cur Hn.
+  - cbn [split_lines_aux]. rewrite app_nil_r. destruct cur as [|c cur]; [reflexivity|].
+    destruct (rev (c :: cur)) eqn:E; [|reflexivity].
+    apply (f_equal (@length N)) in E. rewrite rev_length in E. discriminate.
+  - cbn [split_lines_aux].
+    destruct (b =? 10) eqn:E; [apply N.eqb_eq in E; subst; exfalso; apply Hn; left; reflexivity|].
+    rewrite IH by (intros H; apply Hn; right; exact H). cbn [rev]. rewrite <- app_assoc. reflexivity.
+Qed.
+
+Lemma split_lines_nolf p : ~ In 10 p ->
+  split_lines p = match p with [] => [] | l => [(l, false)] end.
+Proof. intros H. unfold split_lines. rewrite split_lines_aux_nolf by assumption. cbn [rev app]. destruct p; reflexivity. Qed.
+
+(* a cut of an escaped entry unescapes to a cut of the entry *)
+Lemma unesc_prefix e : forall s' r,
+  esc e = s' ++ r -> exists e' r', unesc s' = Some e' /\ e = e' ++ r'.
+Proof.
+  induction e as [|c e IH]; intros s' r H.
+  - destruct s'; [|discriminate]. exists [], []. split; reflexivity.
+  - destruct s' as [|x s'].
+    { exists [], (c :: e). split; reflexivity. }
+    rewrite esc_cons in H. unfold esc_char in H.
+    assert (Hspecial : forall y, esc_char c = [92; y] ->
+               (forall t, unesc (92 :: y :: t) = omap (cons c) (unesc t)) ->
+               ([92; y] ++ esc e = (x :: s') ++ r) ->
+               exists e' r', unesc (x :: s') = Some e' /\ c :: e = e' ++ r').
+    { intros y _ Hu Heq. cbn [app] in Heq. inversion Heq as [[Hx Hrest]]. subst x.
+      destruct s' as [|x2 s'].
+      - exists [], (c :: e). split; reflexivity.
+      - cbn [app] in Hrest. inversion Hrest as [[Hx2 Hrest']]. subst x2.
+        destruct (IH s' r Hrest') as [e' [r' [H1 H2]]]. 
+        exists (c :: e'), r'. rewrite Hu, H1. split; [reflexivity|]. cbn [app]. rewrite H2. reflexivity. }
+    destruct (c =? 92) eqn:E1.
+    { apply N.eqb_eq in E1. subst c. apply (Hspecial 92); [reflexivity|exact unesc_bs_bs|exact H]. }
+    destruct (c =? 10) eqn:E2.
+    { apply N.eqb_eq in E2. subst c. apply (Hspecial 110); [reflexivity|exact unesc_bs_n|exact H]. }
+    destruct (c =? 13) eqn:E3.
+    { apply N.eqb_eq in E3. subst c. apply (Hspecial 114); [reflexivity|exact unesc_bs_r|exact H]. }
+    cbn [app] in H. inversion H as [[Hx Hrest]]. subst x.
+    destruct (IH s' r Hrest) as [e' [r' [H1 H2]]].
+    exists (c :: e'), r'. rewrite unesc_other by assumption. rewrite H1. split; [reflexivity|].
+    cbn [app]. rewrite H2. reflexivity.
+Qed.
+
+Lemma load_rest_app U v2 l1 : forall f ap f' ap',
+  load_rest U v2 f ap l1 = LOk f' ap' ->
+  exists f1 ap1, f' = f_reset f1
+                  /\ forall l2, load_rest U v2 f ap (l1 ++ l2) = load_rest U v2 f1 ap1 l2.
+Proof.
+  induction l1 as [|lb l1 IH]; intros f ap f' ap' H.
+  - cbn [load_rest] in H. inversion H; subst. exists f, ap'. split; [reflexivity|]. intros; reflexivity.
+  - cbn [load_rest app] in *. destruct (decode_line lb) as [line|]; [|discriminate].
+    destruct line as [|c line].
+    + destruct (IH f ap f' ap' H) as [f1 [ap1 [H1 H2]]]. exists f1, ap1. split; [exact H1|].
+      intros l2'. apply H2.
+    + destruct (f_add U f _) as [fa b].
+      destruct (IH fa (ap && b) f' ap' H) as [f1 [ap1 [H1 H2]]]. exists f1, ap1.
+      split; [exact H1|]. intros l2'. apply H2.
+Qed.
+
+Definition is_prefix (a b : str) : Prop := exists r, b = a ++ r.
+
+Lemma f_add_all_app U a b f : f_add_all U f (a ++ b) = f_add_all U (f_add_all U f a) b.
+Proof. revert f; induction a as [|x a IH]; intros f; [reflexivity|]. cbn [app f_add_all]. apply IH. Qed.
+
+Lemma f_entries_reset f : f_entries (f_reset f) = f_entries f.
+Proof. reflexivity. Qed.
+
+(* C12: a prefix (>= the 4 header bytes) of a written file *)
+Theorem torn_load U f es k :
+  Forall (fun e => valid_str e = true) es -> (4 <= k)%nat -> length header = 3%nat ->
+  exists j last,
+    (last = [] \/ exists e' e, last = [e'] /\ nth_error es j = Some e /\ is_prefix e' e)
+    /\ match load_from U f (firstn k (save_bytes es)) with
+       | LOk f' _ => f_entries f' = f_entries (f_add_all U f (firstn j es ++ last))
+       | LErr f' => f_entries f' = f_entries (f_add_all U f (firstn j es))
+       end.
+Proof.
+  intros Hv Hk Hh. unfold save_bytes.
+  rewrite firstn_app. rewrite firstn_all2 by lia. rewrite Hh.
+  destruct (k - 3)%nat as [|m] eqn:Ek; [lia|]. cbn [app firstn].
+  destruct (firstn_entries_bytes es m) as [j [p [Hf Hp]]]. rewrite Hf.
+  assert (Hvj : Forall (fun e => valid_str e = true) (firstn j es)).
+  { apply Forall_forall. intros x Hx. rewrite Forall_forall in Hv. apply Hv.
+    rewrite <- (firstn_skipn j es). apply in_or_app. left. exact Hx. }
+  unfold load_from.
+  rewrite split_lines_line by (intros Hin; pose proof Hh; unfold header, GenConsts.file_version_v2 in Hin;
+                               cbn in Hin; destruct Hin as [Hx|[Hx|[Hx|[]]]]; discriminate).
+  rewrite decode_line_header, str_eqb_refl. rewrite split_lines_entries.
+  destruct (load_rest_entries U (firstn j es) f true Hvj) as [app1 Hl1].
+  destruct (load_rest_app U true (map line_of (firstn j es)) f true _ _ Hl1) as [f1 [app2 [Hf1 Hcont]]].
+  rewrite Hcont.
+  assert (Hent1 : f_entries f1 = f_entries (f_add_all U f (firstn j es))).
+  { rewrite <- (f_entries_reset f1), <- Hf1. reflexivity. }
+  destruct Hp as [->|[e [r [Hn Henc]]]].
+  - exists j, []. split; [left; reflexivity|]. change (split_lines []) with (@nil (list N * bool)).
+    cbn [load_rest]. rewrite app_nil_r. exact Hent1.
+  - assert (Hnolf : ~ In 10 p).
+    { intros Hin. apply (encode_no_lf e). rewrite Henc. apply in_or_app. left. exact Hin. }
+    rewrite split_lines_nolf by assumption.
+    destruct p as [|b p'].
+    { exists j, []. split; [left; reflexivity|]. cbn [load_rest]. rewrite app_nil_r. exact Hent1. }
+    cbn [load_rest]. unfold decode_line.
+    destruct (decode (b :: p')) as [s'|] eqn:Ed.
+    + apply decode_sound in Ed. destruct Ed as [Eenc Evs].
+      assert (Hve : valid_str e = true).
+      { rewrite Forall_forall in Hv. apply Hv. eapply nth_error_In. exact Hn. }
+      destruct (encode_prefix s' (esc e) r Evs (valid_esc e Hve)) as [t Ht]; [rewrite Eenc; symmetry; exact Henc|].
+      destruct (unesc_prefix e s' t Ht) as [e' [r' [Hu He]]].
+      exists j, [e']. split; [right; exists e', e; split; [reflexivity|split; [exact Hn|exists r'; exact He]]|].
+      destruct s' as [|c0 s0]; [cbn in Eenc; discriminate Eenc|].
+      rewrite Hu. destruct (f_add U f1 e') as [fa ba] eqn:Ea. cbn [load_rest].
+      change (f_entries (mkF (f_mem fa) 0 (f_pinfo fa))) with (f_entries fa).
+      rewrite f_add_all_app. cbn [f_add_all].
+      assert (Hsame : forall g1 g2 l, f_entries g1 = f_entries g2 -> cfg_of g1 = cfg_of g2 ->
+                                       f_entries (fst (f_add U g1 l)) = f_entries (fst (f_add U g2 l))).
+      { intros g1 g2 l He1 Hc1. unfold f_add, h_add, h_ignore, f_entries, cfg_of, h_insert, hlen in *.
+        inversion Hc1 as [[Hm Hs Hd]]. rewrite He1, Hm, Hs, Hd.
+        destruct (Nat.eqb (h_max (f_mem g2)) 0); [cbn [fst]; exact He1|].
+        destruct l as [|c l]; [cbn [fst]; exact He1|].
+        destruct (h_ign_space (f_mem g2) && u_is_whitespace U c); [cbn [fst]; exact He1|].
+        destruct (h_ign_dups (f_mem g2)).
+        - destruct (last_opt (h_entries (f_mem g2))) as [s|].
+          + destruct (str_eqb s (c :: l)); cbn [fst f_mem h_entries]; [exact He1|reflexivity].
+          + cbn [fst f_mem h_entries]. reflexivity.
+        - cbn [fst f_mem h_entries]. reflexivity. }
+      replace fa with (fst (f_add U f1 e')) by (rewrite Ea; reflexivity).
+      apply Hsame; [exact Hent1|].
+      rewrite f_add_all_cfg.
+      assert (Hc : cfg_of (f_reset f1) = cfg_of f1) by reflexivity.
+      rewrite <- Hc, <- Hf1. unfold f_reset, cfg_of. cbn [f_mem].
+      change (h_max (f_mem (f_add_all U f (firstn j es))), h_ign_space (f_mem (f_add_all U f (firstn j es))),
+              h_ign_dups (f_mem (f_add_all U f (firstn j es)))) with (cfg_of (f_add_all U f (firstn j es))).
+      apply f_add_all_cfg.
+    + exists j, []. split; [left; reflexivity|]. exact Hent1.
+Qed.
+
+Lemma header_len : length header = 3%nat.
+Proof. reflexivity. Qed.
+
+Lemma no_consec_dup_firstn j : forall es, no_consec_dup es -> no_consec_dup (firstn j es).
+Proof.
+  induction j as [|j IH]; intros es H; [exact I|].
+  destruct es as [|a es]; [exact I|]. cbn [firstn].
+  destruct es as [|b es]; [destruct j; exact I|].
+  destruct H as [Hab H]. specialize (IH _ H). destruct j as [|j]; [exact I|].
+  cbn [firstn] in *. split; assumption.
+Qed.
+
+Lemma wf_firstn U max igs igd es j : wf_entries U max igs igd es -> wf_entries U max igs igd (firstn j es).
+Proof.
+  intros [Hl Ho Hd]. split.
+  - rewrite firstn_length. lia.
+  - apply Forall_forall. intros x Hx. rewrite Forall_forall in Ho. apply Ho.
+    rewrite <- (firstn_skipn j es). apply in_or_app. left. exact Hx.
+  - intros H. apply no_consec_dup_firstn. auto.
+Qed.
+
+(* C12 for the files rustyline itself writes: what is loaded from a prefix is
+   a prefix of the entry list, then at most one cut-short entry *)
+Theorem torn_load_wf U max igs igd es k :
+  Forall (fun e => valid_str e = true) es -> wf_entries U max igs igd es -> (4 <= k)%nat ->
+  exists j last,
+    (last = [] \/ exists e' e, last = [e'] /\ nth_error es j = Some e /\ is_prefix e' e)
+    /\ match load_from U (f_new_cfg max igs igd) (firstn k (save_bytes es)) with
+       | LOk f' _ | LErr f' => f_entries f' = firstn j es ++ last
+       end.
+Proof.
+  intros Hv Hwf Hk.
+  destruct (torn_load U (f_new_cfg max igs igd) es k Hv Hk header_len) as [j [last [Hlast Hload]]].
+  set (f0 := f_new_cfg max igs igd) in *.
+  assert (Hpre : f_entries (f_add_all U f0 (firstn j es)) = firstn j es).
+  { rewrite f_add_all_accepts; [reflexivity|]. cbn. apply wf_firstn. exact Hwf. }
+  destruct (load_from U f0 (firstn k (save_bytes es))) as [f' ap|f'] eqn:El.
+  2:{ exists j, []. split; [left; reflexivity|]. rewrite app_nil_r. rewrite Hload. exact Hpre. }
+  destruct Hlast as [->|[e' [e [-> [Hn Hp]]]]].
+  - exists j, []. split; [left; reflexivity|]. rewrite app_nil_r in *. rewrite Hload. exact Hpre.
+  - rewrite f_add_all_app in Hload. cbn [f_add_all] in Hload.
+    set (f1 := f_add_all U f0 (firstn j es)) in *.
+    destruct (f_add_spec U f1 e') as [Hs|[Hs _]].
+    + exists j, []. split; [left; reflexivity|]. rewrite app_nil_r. rewrite Hs in Hload. cbn [fst] in Hload.
+      rewrite Hload. exact Hpre.
+    + exists j, [e']. split; [right; exists e', e; auto|].
+      rewrite Hs in Hload. cbn [fst] in Hload. rewrite Hload.
+      unfold f_inserted, f_entries, h_insert, hlen. cbn [f_mem h_entries].
+      change (h_entries (f_mem f1)) with (f_entries f1). rewrite Hpre.
+      assert (Hcfg : cfg_of f1 = cfg_of f0) by (unfold f1; apply f_add_all_cfg).
+      unfold cfg_of in Hcfg. cbn in Hcfg. inversion Hcfg as [[Hm Hx Hy]]. rewrite Hm.
+      destruct Hwf as [Hl _ _].
+      assert (Hj : (j < length es)%nat) by (apply nth_error_Some; rewrite Hn; discriminate).
+      rewrite firstn_length. replace (Nat.min j (length es)) with j by lia.
+      destruct (Nat.eqb j max) eqn:E; [apply Nat.eqb_eq in E; lia|reflexivity].
+Qed.
+
+(* ---------- arbitrary bytes (C12): nothing is invented, errors keep what was loaded ---------- *)
+
+Definition unesc_or_raw (l : str) : str := match unesc l with Some s => s | None => l end.
+
+Definition offered (raws : list str) : list str :=
+  match raws with
+  | [] => []
+  | r0 :: rest => if str_eqb r0 header then map unesc_or_raw rest else raws
+  end.
+
+Lemma load_rest_sound U v2 lines : forall f ap,
+  exists n raws,
+    map decode_line (firstn n lines) = map Some raws
+    /\ match load_rest U v2 f ap lines with
+       | LOk f' _ => n = length lines
+                     /\ f_entries f' = f_entries (f_add_all U f (if v2 then map unesc_or_raw raws else raws))
+       | LErr f' => (n < length lines)%nat
+                    /\ nth_error (map decode_line lines) n = Some None
+                    /\ f_entries f' = f_entries (f_add_all U f (if v2 then map unesc_or_raw raws else raws))
+       end.
+Proof.
+  induction lines as [|lb lines IH]; intros f ap.
+  - exists 0%nat, []. split; [reflexivity|]. cbn [load_rest]. split; [reflexivity|]. destruct v2; reflexivity.
+  - cbn [load_rest]. destruct (decode_line lb) as [line|] eqn:Ed.
+    2:{ exists 0%nat, []. split; [reflexivity|]. split; [cbn; lia|]. split; [cbn; rewrite Ed; reflexivity|].
+        destruct v2; reflexivity. }
+    assert (Hgoal : forall f1 ap1, f1 = fst (f_add U f (if v2 then unesc_or_raw line else line)) ->
+      exists n raws,
+        map decode_line (firstn n (lb :: lines)) = map Some raws
+        /\ match load_rest U v2 f1 ap1 lines with
+           | LOk f' _ => n = length (lb :: lines)
+                         /\ f_entries f' = f_entries (f_add_all U f (if v2 then map unesc_or_raw raws else raws))
+           | LErr f' => (n < length (lb :: lines))%nat
+                        /\ nth_error (map decode_line (lb :: lines)) n = Some None
+                        /\ f_entries f' = f_entries (f_add_all U f (if v2 then map unesc_or_raw raws else raws))
+           end).
+    { intros f1 ap1 Hf1. destruct (IH f1 ap1) as [n [raws [H1 H2]]].
+      exists (S n), (line :: raws). split; [cbn [firstn map]; rewrite Ed, H1; reflexivity|].
+      assert (Hall : f_add_all U f (if v2 then map unesc_or_raw (line :: raws) else line :: raws)
+                     = f_add_all U f1 (if v2 then map unesc_or_raw raws else raws)).
+      { subst f1. destruct v2; reflexivity. }
+      rewrite Hall. destruct (load_rest U v2 f1 ap1 lines).
+      - destruct H2 as [H2 H3]. split; [cbn [length]; lia|exact H3].
+      - destruct H2 as [H2 [H3 H4]]. split; [cbn [length]; lia|]. split; [exact H3|exact H4]. }
+    destruct line as [|c line].
+    + apply (Hgoal f ap). destruct v2; [cbn|]; rewrite f_add_nil; reflexivity.
+    + match goal with |- context [f_add U f ?x] => destruct (f_add U f x) as [fa b] eqn:Ea end.
+      apply (Hgoal fa (ap && b)). unfold unesc_or_raw. rewrite Ea. reflexivity.
+Qed.
+
+Theorem load_sound U f bytes :
+  exists n raws,
+    map decode_line (firstn n (split_lines bytes)) = map Some raws
+    /\ match load_from U f bytes with
+       | LOk f' _ => n = length (split_lines bytes)
+                     /\ f_entries f' = f_entries (f_add_all U f (offered raws))
+       | LErr f' => (n < length (split_lines bytes))%nat
+                    /\ nth_error (map decode_line (split_lines bytes)) n = Some None
+                    /\ f_entries f' = f_entries (f_add_all U f (offered raws))
+       end.
+Proof.
+  unfold load_from. destruct (split_lines bytes) as [|lb lines].
+  - exists 0%nat, []. split; [reflexivity|]. split; reflexivity.
+  - destruct (decode_line lb) as [line|] eqn:Ed.
+    2:{ exists 0%nat, []. split; [reflexivity|]. split; [cbn; lia|]. split; [cbn; rewrite Ed; reflexivity|reflexivity]. }
+    destruct (str_eqb line header) eqn:Eh.
+    + destruct (load_rest_sound U true lines f true) as [n [raws [H1 H2]]].
+      exists (S n), (line :: raws). split; [cbn [firstn map]; rewrite Ed, H1; reflexivity|].
+      unfold offered. rewrite Eh. destruct (load_rest U true f true lines).
+      * destruct H2 as [H2 H3]. split; [cbn [length]; lia|exact H3].
+      * destruct H2 as [H2 [H3 H4]]. split; [cbn [length]; lia|]. split; [exact H3|exact H4].
+    + destruct (f_add U f line) as [fa b] eqn:Ea.
+      destruct (load_rest_sound U false lines fa false) as [n [raws [H1 H2]]].
+      exists (S n), (line :: raws). split; [cbn [firstn map]; rewrite Ed, H1; reflexivity|].
+      unfold offered. rewrite Eh. cbn [f_add_all]. rewrite Ea. cbn [fst].
+      destruct (load_rest U false fa false lines).
+      * destruct H2 as [H2 H3]. split; [cbn [length]; lia|exact H3].
+      * destruct H2 as [H2 [H3 H4]]. split; [cbn [length]; lia|]. split; [exact H3|exact H4].
+Qed.
